@@ -16,7 +16,9 @@ CONSTANT K
 VARIABLES stage, part, L, fmt, rt
 vars == <<stage, part, L, fmt, rt>>
 
-Ln(t, s, h) == [text |-> t, std |-> s, hosts |-> h]
+Ln(t, s, h) == [text |-> t, std |-> s, hosts |-> h, key |-> "", val |-> ""]
+\* a special comment "! Key: value"; val = "" when the value is not acceptable (Expires out of range ...)
+Mt(t, k, v) == [text |-> t, std |-> "rej", hosts |-> "", key |-> k, val |-> v]
 Lines == <<
   Ln("||ab.ba^", "net", ""), Ln("/ab-$script", "net", ""), Ln("@@||ab.ba/ok^", "net", ""), Ln("  ||x.com^$third-party  ", "net", ""),
   Ln("ab.ba##.x", "cos", "ab.ba"), Ln("##.g", "cos", ""), Ln("ab.ba#@#.x", "cos", "ab.ba"), Ln("ab.ba##+js(sc1, x)", "cos", "ab.ba"),
@@ -28,7 +30,14 @@ Lines == <<
   Ln("||ab.ba^$match-case", "rej", ""), Ln("||ab.ba^$generichide", "rej", ""), Ln("ab.ba##.x:style(", "rej", "ab.ba"),
   Ln("127.0.0.1 ab.ba", "net", "ab.ba"), Ln("0.0.0.0 x.com # c", "net", "x.com"), Ln("s.ab.ba", "net", "s.ab.ba"), Ln("::1 www.x.com", "net", "www.x.com"),
   Ln("127.0.0.1 localhost", "net", ""), Ln("127.0.0.1 a b", "net", ""), Ln("ab", "net", ""), Ln("ab.ba/x", "net", ""), Ln(".ba", "net", ""),
-  Ln("ab.ba.", "net", ""), Ln("AB.Ba", "net", "AB.Ba"), Ln("\t0.0.0.0\t\tx.com", "net", "x.com")
+  Ln("ab.ba.", "net", ""), Ln("AB.Ba", "net", "AB.Ba"), Ln("\t0.0.0.0\t\tx.com", "net", "x.com"),
+  \* list metadata ("special comments"): first occurrence of a key wins; Expires is 1..14 days or 1..336 hours
+  Mt("! Title: A", "Title", "A"), Mt("! Title: B b: c", "Title", "B b: c"), Mt("! Homepage: http://h", "Homepage", "http://h"),
+  Mt("! Redirect: http://r", "Redirect", "http://r"), Mt("! Expires: 4 days", "Expires", "days:4"), Mt("! Expires: 1 hour", "Expires", "hours:1"),
+  Mt("! Expires: 14 days (update frequency)", "Expires", "days:14"), Mt("! Expires: 336 hours", "Expires", "hours:336"),
+  Mt("! Expires: 0 days", "Expires", ""), Mt("! Expires: 15 days", "Expires", ""), Mt("! Expires: 337 hours", "Expires", ""),
+  Mt("! Expires: +3 days", "Expires", ""), Mt("! Expires: 3 weeks", "Expires", ""), Mt("! Expires: 3  days", "Expires", ""),
+  Mt("! Expires: 1 day", "Expires", "days:1"), Mt("!Title: X", "", ""), Mt("! title: x", "", ""), Mt("! Title", "", "")
 >>
 
 Accepted(l, f, r) ==
@@ -52,10 +61,22 @@ Independent ==
   stage = "case" => \A i \in 0..Len(L) :
      RefList(L, fmt, rt) = RefList(SubSeq(L, 1, i), fmt, rt) \o RefList(SubSeq(L, i + 1, Len(L)), fmt, rt)
 
+\* metadata of a sequence of lines: per key, the value of the first line carrying that key with an
+\* acceptable value ("" = absent)
+MetaOf(l) ==
+  [k \in {"Title", "Homepage", "Expires", "Redirect"} |->
+     LET idx == {i \in DOMAIN l : l[i].key = k /\ l[i].val # ""} IN
+     IF idx = {} THEN "" ELSE l[CHOOSE i \in idx : \A j \in idx : i <= j].val]
+\* read_list_metadata only reads the head of the list: up to the first line that is neither a comment
+\* nor a '[...]' header (blank lines included)
+IsHeadLine(x) == Len(x.text) > 0 /\ (SubSeq(x.text, 1, 1) = "!" \/ SubSeq(x.text, 1, 1) = "[")
+HeadOf(l) == LET stop == {i \in DOMAIN l : ~IsHeadLine(l[i])} IN
+             IF stop = {} THEN l ELSE SubSeq(l, 1, (CHOOSE i \in stop : \A j \in stop : i <= j) - 1)
+
 Exported ==
   stage = "case" =>
     PrintT(ToJson([k |-> "list", lines |-> [i \in DOMAIN L |-> L[i].text], format |-> fmt, rule_types |-> rt,
-                   reference |-> RefList(L, fmt, rt),
+                   reference |-> RefList(L, fmt, rt), meta_all |-> MetaOf(L), meta_head |-> MetaOf(HeadOf(L)),
                    nnet |-> Cardinality({i \in DOMAIN L : Accepted(L[i], fmt, rt) /\ (fmt = "hosts" \/ L[i].std = "net")}),
                    ncos |-> Cardinality({i \in DOMAIN L : Accepted(L[i], fmt, rt) /\ fmt = "standard" /\ L[i].std = "cos"})]))
 =============================================================================
